@@ -67,9 +67,22 @@ def digest(a):
     return hashlib.sha256(np.ascontiguousarray(np.asarray(a, dtype=np.float64)).tobytes()).hexdigest()
 
 
+def _canon(o):
+    """order-insensitive form of the serialised predictor: the state dictionary is written in the iteration order of the
+    set `_state_variables`, i.e. in str-hash order, which differs between interpreters with different hash salts; the
+    PREDICTOR (what the property speaks about) is the same object - keys are sorted and serialised sets are sorted"""
+    if isinstance(o, dict):
+        if o.get("type") == "set" and isinstance(o.get("data"), list):
+            return {"type": "set", "data": sorted((_canon(x) for x in o["data"]), key=lambda x: json.dumps(x, sort_keys=True))}
+        return {k: ("" if k == "serialization_date" else _canon(v)) for k, v in sorted(o.items())}
+    if isinstance(o, list):
+        return [_canon(x) for x in o]
+    return o
+
+
 def predictor_json(est):
-    s = est.predict.to_json()
-    return re.sub(r'"serialization_date":\s*"[^"]*"', '"serialization_date": ""', s)
+    d = json.loads(est.predict.to_json())       # time stamps (predictor and nested kernel metadata) are blanked by _canon
+    return json.dumps(_canon(d), sort_keys=True)
 
 
 def summary(est):
